@@ -89,9 +89,19 @@ pub fn output_tokens(
     )?;
 
     let trait_ident = &out_trait.ident;
+    // an async method that takes `self` by value moves the `Impl<T>` into its future: for that future to be `Send`, T has to be
+    let moves_self_into_send_future = attr.opts.future_send().0
+        && generics::has_any_self_by_value(
+            out_trait
+                .fns
+                .iter()
+                .map(|trait_fn| trait_fn.sig())
+                .filter(|sig| sig.asyncness.is_some()),
+        )
+        .0;
     let params = out_trait.generics.impl_params_from_idents(
         generic_idents,
-        generics::TakesSelfByValue(false), // BUG?
+        generics::TakesSelfByValue(moves_self_into_send_future),
     );
     let args = out_trait
         .generics
